@@ -103,6 +103,7 @@ type Translator struct {
 	rangeOfNext map[*ssa.BasicBlock]*ssa.Range
 	parent  *Translator
 	callOrd map[*ssa.Call]int
+	curCall int
 	rets    []retEdge
 	notesUp []string
 }
@@ -552,7 +553,7 @@ func (t *Translator) run() {
 		n := t.paramName(p)
 		vc.declare(n, t.S().SortOf(p.Type()))
 		t.vals[p] = n
-		t.params[p.Name()] = binding{n, &SType{Go: p.Type()}}
+		t.params[p.Name()] = binding{term: n, typ: &SType{Go: p.Type()}}
 		t.assumeTyped(st, n, p.Type())
 	}
 	for _, fv := range fn.FreeVars {
@@ -561,10 +562,9 @@ func (t *Translator) run() {
 		t.vals[fv] = n
 		t.assume(st, "(< 0 "+n+")")
 		t.assume(st, "(< "+n+" "+next0+")")
-		// expose captured variable by name: *fv
+		// expose captured variable by name: its value lives in the box array
 		elem := fv.Type().(*types.Pointer).Elem()
-		a := t.w.boxArr(elem)
-		_ = a
+		t.params[fv.Name()] = binding{n, &SType{Go: elem}, elem}
 	}
 	t.entry = st.clone()
 	// result names
@@ -586,6 +586,23 @@ func (t *Translator) run() {
 			f, _ := t.env(st, st.heap, nil).Eval(c.E)
 			t.assume(st, f)
 		}
+	}
+	if t.spec != nil && t.spec.SortSlice != nil && len(fn.Params) >= 2 {
+		// A-sort: the comparator is only called with in-range indices of the slice being sorted
+		env := t.env(st, st.heap, nil)
+		sl, sty := env.Eval(t.spec.SortSlice)
+		so := t.S().SortOf(sty.Go)
+		for _, p := range fn.Params[:2] {
+			n := t.vals[p]
+			t.assume(st, "(and (<= 0 "+n+") (< "+n+" "+slLen(so, sl)+"))")
+		}
+	}
+	if t.parent == nil {
+		epc := vc.newPC("pre", st.pc)
+		vc.assume(epc, st.pc)
+		st.pc = epc
+		st.pcHasOb = false
+		vc.entryPC = epc
 	}
 	// cover: preconditions satisfiable
 	if t.spec != nil && len(t.spec.Requires) > 0 {
@@ -966,7 +983,7 @@ func (t *Translator) invEnv(st *State, li *loopInfo) *Env {
 			}
 		}
 		if best != nil {
-			vars[name] = binding{st.locals[best], &SType{Go: best.Type().(*types.Pointer).Elem()}}
+			vars[name] = binding{term: st.locals[best], typ: &SType{Go: best.Type().(*types.Pointer).Elem()}}
 		}
 	}
 	// heap-allocated named locals (escaping): expose through box
@@ -1137,6 +1154,9 @@ func (t *Translator) modPreds(spec *FuncSpec, env *Env) map[string]func(r string
 					md, mv := t.w.mapArrs(m)
 					arrs = []*ArrInfo{md, mv}
 					vt = ty
+				} else if pt, ok := types.Unalias(ty.Go).Underlying().(*types.Pointer); ok && mc.Field == "" {
+					arrs = []*ArrInfo{t.w.boxArr(pt.Elem())}
+					vt = ty
 				} else {
 					_, index, _ := types.LookupFieldOrMethod(ty.Go, true, env.pkgFor(ty.Go), mc.Field)
 					if len(index) != 1 {
@@ -1155,7 +1175,7 @@ func (t *Translator) modPreds(spec *FuncSpec, env *Env) map[string]func(r string
 				vt = t.w.resolveType(g.Param.Type, gctx)
 			}
 			f := func(r string) string {
-				p, _ := env.with(map[string]binding{mc.Var: {r, vt}}).Eval(mc.Pred)
+				p, _ := env.with(map[string]binding{mc.Var: {term: r, typ: vt}}).Eval(mc.Pred)
 				return p
 			}
 			for _, a := range arrs {
